@@ -570,6 +570,14 @@ func SetValue(dest, v reflect.Value) {
 	dest.Set(v)
 }
 
+// convertValue returns a value of type typ that holds v the way SetValue stores it (pointers packed or
+// unpacked, integer and float widths adjusted); an invalid v gives the zero value of typ
+func convertValue(typ reflect.Type, v reflect.Value) reflect.Value {
+	nv := reflect.New(typ).Elem()
+	SetValue(nv, v)
+	return nv
+}
+
 func AddrEqual(x, y interface{}) bool {
 	if x == nil || y == nil {
 		return x == y
